@@ -85,7 +85,7 @@ def mk(*a):
 
 
 def show(e, depth=0):
-    if not isinstance(e, tuple):
+    if not isinstance(e, tuple) or not e:
         return repr(e)
     if depth > 12:
         return "…"
